@@ -39,10 +39,12 @@ CONSTANTS Source,       \* "enum" | "file" | "segs"
 
 Data == JsonDeserialize(IOEnv.LAYOUT_FILE)      \* "enum": the trees; "file": the observations
 
-VARIABLES ti, ll, ml, lbok, col, lens
-vars == <<ti, ll, ml, lbok, col, lens>>
+VARIABLES ti, ll, ml, lbok, col, lens,
+          step, wrapok     \* "hist": 1 = before the first rendering, 2 = after it, 3 = after the probe;
+                           \* wrapok = the class-level PyvalColorizer.LINEWRAP node still holds its sign
+vars == <<ti, ll, ml, lbok, col, lens, step, wrapok>>
 
-E == INSTANCE Expr WITH Mode <- "layout", CmpUsed <- {}, Open <- {}, Fixed <- Fixed, n <- 0, x1 <- 0, x2 <- 0, frm <- 0
+E == INSTANCE Expr WITH Mode <- "layout", AnnOps <- {}, CmpUsed <- {}, Open <- {}, Fixed <- Fixed, n <- 0, x1 <- 0, x2 <- 0, frm <- 0
 
 Min(a, b) == IF a < b THEN a ELSE b
 Max(a, b) == IF a > b THEN a ELSE b
@@ -156,13 +158,30 @@ Col(st, p, i, t) ==
                IN Out(s3, <<")">>, FALSE)
 
 \* colorize (:305-333)
-St0(linelen, maxlines) == [out |-> <<>>, cp |-> 0, ln |-> 1, lb |-> lbok, exc |-> "none", LL |-> linelen, ML |-> maxlines]
-Colorize(t) ==
-   LET r == Col(St0(ll, ml), E!Root, 1, t)
-   IN IF r.exc = "none" THEN [text |-> r.out, complete |-> TRUE]
-      ELSE IF lbok THEN [text |-> r.out \o <<"NL", "ELL">>, complete |-> FALSE]
+St0b(linelen, maxlines, lb) == [out |-> <<>>, cp |-> 0, ln |-> 1, lb |-> lb, exc |-> "none", LL |-> linelen, ML |-> maxlines]
+St0(linelen, maxlines) == St0b(linelen, maxlines, lbok)
+\* _trim_result (:382-406) shortens the last nodes of the result IN PLACE (result[-1][-1] = Text(data[:-trim])).
+\* LINEWRAP is ONE node object, a class attribute shared by every representation made in the process: the first wrap
+\* sign that is trimmed costs one character and empties that shared node; from then on every other wrap sign - later in
+\* this loop (costing nothing), earlier in this text, and in every later representation - is empty.
+\* Repaired (FixShared): the node is copied before it is edited.
+FixShared == "shared-linewrap-mutated" \in Fixed
+Front(s) == SubSeq(s, 1, Len(s) - 1)
+RECURSIVE Trim(_, _, _)
+Trim(s, budget, emptied) ==
+   IF budget = 0 \/ s = <<>> THEN [s |-> s, emptied |-> emptied]
+   ELSE IF Last(s) = "WRAP" /\ ~FixShared THEN Trim(Front(s), IF emptied THEN budget ELSE budget - 1, TRUE)
+   ELSE Trim(Front(s), budget - 1, emptied)
+ColorizeWith(t, linelen, maxlines, lb) ==
+   LET r == Col(St0b(linelen, maxlines, lb), E!Root, 1, t)
+   IN IF r.exc = "none" THEN [text |-> r.out, complete |-> TRUE, emptied |-> FALSE]
+      ELSE IF lb THEN [text |-> r.out \o <<"NL", "ELL">>, complete |-> FALSE, emptied |-> FALSE]
       ELSE LET o1 == IF r.out # <<>> /\ Last(r.out) = "WRAP" THEN PyTo(r.out, -1) ELSE r.out
-           IN [text |-> PyTo(o1, -3) \o <<"ELL">>, complete |-> FALSE]                                   \* _trim_result(.., 3)
+               tr == Trim(o1, 3, FALSE)                                                                  \* _trim_result(.., 3)
+               left == IF tr.emptied THEN SelectSeq(tr.s, LAMBDA x : x # "WRAP") ELSE tr.s
+           IN [text |-> left \o <<"ELL">>, complete |-> FALSE, emptied |-> tr.emptied]
+Colorize(t) == ColorizeWith(t, ll, ml, lbok)
+Corrupts(t, linelen, maxlines) == ColorizeWith(t, linelen, maxlines, FALSE).emptied
 
 \* ------------------------------------------------------------------ the contract
 RECURSIVE Unwrap(_), Canon(_), SkipSp(_)
@@ -193,7 +212,8 @@ Marked(full, shown, complete) ==
 RECURSIVE SeqsUpTo(_, _)
 SeqsUpTo(S, k) == IF k = 0 THEN {<<>>}
                   ELSE SeqsUpTo(S, k - 1) \cup {Append(x, y) : x \in {z \in SeqsUpTo(S, k - 1) : Len(z) = k - 1}, y \in S}
-Init == \/ /\ Source \in {"enum", "file"} /\ col = 0 /\ lens = <<>>
+InitCase ==
+        \/ /\ Source \in {"enum", "file"} /\ col = 0 /\ lens = <<>>
            /\ ti \in 1..Len(Data)
            \* linebreakok = FALSE is the inline configuration (colorize_inline_pyval): no line length there
            /\ IF Source = "enum" THEN /\ lbok \in BOOLEAN /\ ml \in 0..MaxMaxLines
@@ -202,7 +222,23 @@ Init == \/ /\ Source \in {"enum", "file"} /\ col = 0 /\ lens = <<>>
         \/ /\ Source = "segs" /\ ti = 0 /\ lbok = TRUE
            /\ ll \in 1..MaxLineLen /\ ml \in {0, MaxMaxLines} /\ col \in 0..ColMax
            /\ lens \in (SeqsUpTo(0..SegMax, 3) \ {<<>>})
-Next == FALSE /\ UNCHANGED vars
+        \* a history: a value rendered on one line with a line length (the "summary" configuration of the API), then a probe
+        \/ /\ Source = "hist" /\ col = 0 /\ lens = <<>> /\ lbok = FALSE
+           /\ ti \in 1..Len(Data) /\ ll \in 1..MaxLineLen /\ ml \in 0..MaxMaxLines
+Init == /\ wrapok = TRUE
+        /\ step = (IF Source = "hist" THEN 1 ELSE 0)
+        /\ InitCase
+Render1 == /\ step = 1 /\ step' = 2
+           /\ wrapok' = (FixShared \/ ~Corrupts(Data[ti], ll, ml))
+           /\ UNCHANGED <<ti, ll, ml, lbok, col, lens>>
+Probe   == /\ step = 2 /\ step' = 3 /\ UNCHANGED <<ti, ll, ml, lbok, col, lens, wrapok>>
+Next == Source = "hist" /\ (Render1 \/ Probe)
+\* the probe: a number wrapped at 4 characters, shown by a later, unrelated representation in the same process
+ProbeTree == [k |-> "Num", op |-> <<"1", "2", "3", "4", "5", "6", "7", "8", "9", "0">>, kids |-> <<>>]
+ProbeClean == ColorizeWith(ProbeTree, 4, 0, TRUE).text
+ProbeShown == IF wrapok THEN ProbeClean ELSE SelectSeq(ProbeClean, LAMBDA x : x # "WRAP")
+\* what is shown for a value does not depend on what was rendered before
+HistoryIndependent == step = 3 => ProbeShown = ProbeClean
 Spec == Init /\ [][Next]_vars
 
 \* design level: the contract on the transcription's own output (full = the same value with no limits)
@@ -219,7 +255,11 @@ OrderKept(st) == st.exc = "none" =>
                     [j \in DOMAIN Unwrap(st.out) |-> IF Unwrap(st.out)[j] = "NL" THEN "nl" ELSE Unwrap(st.out)[j]]
                     = SegPrefix \o SegText(lens, 1, 0)
 DesignOrderKept == Source = "segs" => OrderKept(SegRun)
-Emit == IF Source = "segs"
+Emit == IF Source = "hist"
+          THEN (step = 3 => LET c == Colorize(Data[ti]) IN
+                PrintT(ToJson([ti |-> ti, ll |-> ll, ml |-> ml, text |-> c.text, complete |-> c.complete,
+                               wrapok |-> wrapok, probe |-> ProbeShown])))
+        ELSE IF Source = "segs"
           THEN LET r == SegRun IN
                PrintT(ToJson([ll |-> ll, ml |-> ml, col |-> col, lens |-> lens, text |-> SegText(lens, 1, 0), out |-> r.out,
                               cp |-> r.cp, ln |-> r.ln, exc |-> r.exc, kept |-> OrderKept(r)]))
